@@ -70,7 +70,7 @@ def make_frame(c):
 
 
 def snap(fr):
-    return dict(ts_ext=np.asarray(fr.ts_ext).copy(), fs=fr.fs.copy(), ts=fr.ts.copy(), shape=fr.shape, noise=(fr.noise_mean, fr.noise_std), meta=pickle.dumps(fr.metadata),
+    return dict(attrs=sorted(vars(fr)), ts_ext=np.asarray(fr.ts_ext).copy(), fs=fr.fs.copy(), ts=fr.ts.copy(), shape=fr.shape, noise=(fr.noise_mean, fr.noise_std), meta=pickle.dumps(fr.metadata),
                 rng=pickle.dumps(fr.rng.bit_generator.state), df=fr.df, dt=fr.dt, fch1=fr.fch1, fmin=fr.fmin, fmax=fr.fmax, dtype=str(fr.data.dtype))
 
 
@@ -79,7 +79,7 @@ def same_state(a, b):
     for k in ("fs", "ts", "ts_ext"):
         if not np.array_equal(a[k], b[k]):
             bad.append(k)
-    for k in ("shape", "noise", "meta", "rng", "df", "dt", "fch1", "fmin", "fmax"):
+    for k in ("shape", "noise", "meta", "rng", "df", "dt", "fch1", "fmin", "fmax", "attrs"):
         if a[k] != b[k]:
             bad.append(k)
     return bad
@@ -113,6 +113,7 @@ def run_case(c):
     fr = make_frame(c)
     out = dict(steps=[], fails=[])
     rets = []
+    kept = []
     before_all = fr.data.astype(float).copy()
     for k, s in enumerate(c["signals"]):
         st0 = snap(fr)
@@ -129,6 +130,12 @@ def run_case(c):
         st1 = snap(fr)
         rec = dict(err=None, ret=hexm(ret), data=hexm(after))
         out["steps"].append(rec)
+        # what an earlier injection returned stays what it was: a later injection must neither hand out the same array again nor write into it
+        for j, (r0, c0) in enumerate(kept):
+            if r0 is ret or np.shares_memory(r0, ret) or not np.array_equal(r0, c0):
+                out["fails"].append(["return-aliased", "the array returned by injection %d %s injection %d" % (j, "is the array returned by" if (r0 is ret or np.shares_memory(r0, ret)) else "was changed by", k)])
+                break
+        kept.append((ret, ret.copy()))
         rets.append(ret)
         # ---- additive / state / outside-untouched, evaluated directly
         # (float32 data stays float32: the sum is rounded to the data's own precision)
